@@ -391,4 +391,8 @@ def items (fmt : Fmt) (r : Result) (level : Int) : List JV :=
 def tree (fmt : Fmt) (r : Result) (level : Int) : JV :=
   .obj (entryFields fmt .start (.ratio r.nframes r.frate) (.prob r.prob) r.hyp ++ [([119], .arr (items fmt r level))])
 
+/-- libc fact needed for *validity* (not for the size agreement): `%.3f` of the values passed renders a JSON number
+(finite `double`s in the "C" locale do: `-?digits.ddd`) -/
+def NumOK (fmt : Fmt) : Prop := ∀ a, isJsonNumber (fmt.num a) = true
+
 end SSVerif.Json
